@@ -286,3 +286,61 @@ def vc_resolve(ctx, r):
     r.ob(found, "resolve.rs:function-parameters:default_val-not-resolved", file, helpers[0]["l"] if helpers else 0,
          "no resolver function that binds function parameters visits `default_val`: identifiers in default-value expressions are never resolved (the generator then panics on the missing resolution)",
          sample="parameter default values are name-resolved")
+
+
+@rule("VISIT-COMPLETE-LSP", ["C35", "C34"], "the editor's offset searches reach every expr/stmt/arm/pattern child, so every identifier occurrence can be found under the cursor")
+def vc_lsp(ctx, r):
+    visit_complete(ctx, r, "lsp-find", 30)
+    visit_complete(ctx, r, "lsp-ident", 37)
+
+
+@rule("LSP-SOURCE", ["C35"], "go-to-definition and hover read the very tables the compiler uses, keyed by the node found under the cursor")
+def lsp_source(ctx, r):
+    lib = ctx.file_items("abra_core/src/lib.rs")
+    lsp = ctx.file_items(LSP)
+    if lib is None or lsp is None:
+        r.missing("lib.rs / lsp_helper.rs")
+        return
+    d = None
+    t = None
+    for f, _ in q.iter_items(lib):
+        if f["k"] == "Fn" and f.get("body") is not None:
+            if f["name"] == "definition_at":
+                d = f
+            if f["name"] == "type_at":
+                t = f
+    if d is None or t is None:
+        r.missing("definition_at / type_at", "abra_core/src/lib.rs")
+        return
+    # definition_at: node found at the offset -> its id -> resolution_map -> declaration_location
+    found = [b for x in q.walk(d["body"]) if x["k"] == "Local" and x.get("init") is not None and any(y["k"] == "Call" and "find_identifier_at_offset" in q.show(y["f"]) for y in q.walk(x["init"])) for b in q.pat_bindings(x["pat"])]
+    ids = [b for x in q.walk(d["body"]) if x["k"] == "Local" and x.get("init") is not None and found and q.show(x["init"]).replace(" ", "") == f"{found[0]}.id()" for b in q.pat_bindings(x["pat"])]
+    look = [x for x in q.walk(d["body"]) if x["k"] == "MethodCall" and x["m"] == "get" and q.show(x["recv"]).endswith("ctx.resolution_map")]
+    ok = bool(found) and bool(look) and (q.show(look[0]["args"][0]).lstrip("&") in ids or q.show(look[0]["args"][0]).replace(" ", "").lstrip("&") == f"{found[0]}.id()")
+    r.ob(ok, "lib.rs:definition_at:not-the-compilers-resolution", "abra_core/src/lib.rs", d["l"],
+         "definition_at must look the identifier found under the cursor up in ctx.resolution_map by its node id - the table the type checker and the generator use - so that it names the declaration the compiler actually uses (the innermost binding), never a lookup by name",
+         sample="definition_at: resolution_map[id of the identifier at the offset]")
+    tail = d["body"]["stmts"][-1]
+    r.ob(tail["k"] == "ExprStmt" and q.show(tail["e"]).startswith("declaration_location("), "lib.rs:definition_at:location", "abra_core/src/lib.rs", d["l"], "definition_at must return declaration_location(decl)")
+    sol = [x for x in q.walk(t["body"]) if x["k"] == "MethodCall" and x["m"] == "solution_of_node" and q.show(x["recv"]).endswith("ctx")]
+    node_v = [b for x in q.walk(t["body"]) if x["k"] == "Local" and x.get("init") is not None and any(y["k"] == "Call" and "find_innermost_node_at_offset" in q.show(y["f"]) for y in q.walk(x["init"])) for b in q.pat_bindings(x["pat"])]
+    r.ob(bool(sol) and bool(node_v) and q.show(sol[0]["args"][0]) == node_v[0], "lib.rs:type_at:not-the-checkers-solution", "abra_core/src/lib.rs", t["l"],
+         "type_at must report ctx.solution_of_node of the innermost node at the offset: the type the checker inferred", sample="type_at: solution_of_node(innermost node at the offset)")
+    # declaration_location names the declaration's own name node for every kind that has a source position
+    dl = q.find_fn(lsp, "declaration_location")
+    if dl is None:
+        r.missing("declaration_location", LSP)
+        return
+    m = next((x for x in q.walk(dl["body"]) if x["k"] == "Match"), None)
+    n = 0
+    for a in (m["arms"] if m else []):
+        heads = [q.last_seg(h) for h in q.pat_heads(a["pat"])]
+        body = q.show(a["body"]).replace(" ", "")
+        if body.startswith("return"):
+            continue
+        n += 1
+        binds = q.pat_bindings(a["pat"])
+        ok = any(body.startswith(b + ".") or body.startswith(b + "[") or body == f"{b}.clone()" for b in binds) and (body.endswith(".node()") or body.endswith(".clone()"))
+        r.ob(ok, f"lsp_helper.rs:declaration_location:{'|'.join(heads)}:location-not-from-the-declaration", LSP, a["l"],
+             f"declaration_location, {heads}: the location must be taken from the declaration bound in this arm (its name node); it is `{body[:60]}`", sample=f"declaration_location {heads}: {body[:40]}")
+    r.count("declaration kinds with a source location", n, 12, LSP)
